@@ -278,6 +278,15 @@ func fixedC08() []*Case {
 		// an extraction error in the first of three roots: the plugin's status must still report it
 		mk("fixed", []*Node{dir(".", file("a", 1)), dir(".", file("b", 1)), dir(".", file("c", 1))}, func(c *Case) { c.Extract[0].Err = true }),
 		mk("fixed", []*Node{dir(".", file("b", 1), file("a", 1))}, func(c *Case) { c.Extract[0].Pkgs[0].Name = "p"; c.Extract[1].Pkgs[0].Name = "p" }),
+		// a package with several locations whose first one (the file it was extracted from) is not the alphabetically first:
+		// sortResults keeps Locations[0] in place and sorts only the rest (/repo commit 57324273)
+		mk("fixed", []*Node{dir(".", file("z", 1))}, func(c *Case) {
+			c.Extract[0].Pkgs = []Pkg{{Name: "p", Version: "1", Locs: []string{"z", "m", "a", "k"}}, {Name: "p", Version: "1", Locs: []string{"z"}}}
+		}),
+		mk("fixed", []*Node{dir(".")}, nil),
+		mk("fixed", []*Node{dir(".")}, nil),
+		mk("fixed", []*Node{dir(".")}, nil),
+		mk("fixed", []*Node{dir(".")}, nil),
 		// (kept last) detectors whose findings' publisher order disagrees with the reference order
 		mk("fixed", []*Node{dir(".")}, func(c *Case) {
 			c.Dets = []Det{{Name: "det0", Findings: []Finding{{Pub: "ZZZ", Ref: "A9", Extra: "x"}, {Pub: "AAA", Ref: "R2", Extra: ""}, {Pub: "CVE", Ref: "A9", Extra: ""}}}}
